@@ -9,7 +9,8 @@
     distinct, builtin values constant). *)
 From Coq Require Import List Bool Arith NArith.
 From Exactly Require Import Model.Exec Model.Symbols Spec.C08
-  Proofs.SymbolsLayout Proofs.SymbolsSound Proofs.SymbolsAccept Proofs.SymbolsRun Proofs.SymbolsMain.
+  Proofs.SymbolsLayout Proofs.SymbolsSound Proofs.SymbolsAccept Proofs.SymbolsRun Proofs.SymbolsMain
+  Proofs.SymbolsDecl Proofs.SymbolsMatrix Gen.C08_types.
 Import ListNotations.
 
 (** Validation accepts exactly what the specification accepts: no name defined twice (builtins
@@ -21,6 +22,33 @@ Theorem C08_accept_iff :
     ((exists t, validate_all roots builtins tc = inl t) <-> spec_accept roots builtins tc = true).
 Proof. exact accept_iff_validate. Qed.
 Print Assumptions C08_accept_iff.
+
+(** [spec_accept] in the words of the property: for every instruction [i] of the test case (in
+    execution order: setup, act, before-assert, assert, cleanup; file order within a phase), with
+    [earlier] = the builtin names and the names defined by the instructions strictly before [i]:
+    a definition's name is not among [earlier]; every reference of [i] (for a definition: the references
+    inside its value) names a member of [earlier], and the restriction of the reference's context holds
+    for that definition ([restr_ok]: its type is among the accepted ones / its relativity is accepted,
+    and where the context says so the same for every definition reachable from it). *)
+Theorem C08_accept_declarative :
+  forall roots builtins tc,
+    spec_accept roots builtins tc = true <->
+    (forall pre i post, exec_order tc = pre ++ i :: post ->
+       let e := env_afters roots (env_of_table roots builtins) pre in
+       let earlier := map fst builtins ++ def_names pre in
+       (forall n c, i = IDef n c -> ~ In n earlier) /\
+       (forall r, In r (instr_refs i) ->
+          In (r_name r) earlier /\ exists d, find e (r_name r) = Some d /\ restr_ok e (r_restr r) d = true)).
+Proof. exact accept_declarative. Qed.
+Print Assumptions C08_accept_declarative.
+
+(** ... in particular an accepted test case defines no name twice, builtin names included. *)
+Theorem C08_accepted_defines_once :
+  forall roots builtins tc,
+    builtins_ok builtins = true -> spec_accept roots builtins tc = true ->
+    NoDup (map fst builtins ++ def_names (exec_order tc)).
+Proof. exact accepted_defined_once. Qed.
+Print Assumptions C08_accepted_defines_once.
 
 (** Any violation is reported as VALIDATION_ERROR (never an escaping exception) before anything
     executes: no sandbox, no value resolved. *)
@@ -106,6 +134,32 @@ Theorem C08_runtime_table_sound_refuted :
     spec_expected roots builtins tc = [(Cleanup, 0, Some [[97%N]])].
 Proof. exists kf_roots, [], kf_case. vm_compute. repeat split. Qed.
 Print Assumptions C08_runtime_table_sound_refuted.
+
+(** What the property demands is consistent and is met by a one-line change of the model of the
+    executor: if [cleanup] is given every definition of the earlier phases ([sym_execute_gen true]) the
+    whole resolution clause holds for every accepted test case, with no proviso.  (The correspondence
+    check accepts this behaviour too on inputs of the known finding, so a repair of the defect keeps
+    the check silent.) *)
+Theorem C08_resolution_of_repaired_executor :
+  forall roots builtins tc,
+    builtins_ok builtins = true -> wf_tcase tc = true -> spec_accept roots builtins tc = true ->
+    let o := sym_execute_gen true roots builtins tc in
+    o_sandbox o = true /\ o_verdict o <> VdValidation /\ o_verdict o <> VdInternal /\
+    map some_obs (o_values o) = spec_expected roots builtins tc.
+Proof. exact repaired_execution. Qed.
+Print Assumptions C08_resolution_of_repaired_executor.
+
+(** (T) The type-compatibility matrix tabulated on this run from the live restriction objects of the
+    implementation (every context x every kind of definition; coq/Gen/C08_types.v): the model's
+    [restr_sat] and the specification's [ref_ok] give, entry by entry, the answer the implementation
+    gave; all 13 value types occur. *)
+Theorem C08_type_matrix_matches_model :
+  (forall r c b, In (r, c, b) gen_type_matrix ->
+     (restr_sat mx_roots [(100%N, c)] r c = Sat <-> b = true) /\
+     ref_ok (env_of_table mx_roots [(100%N, c)]) (Ref 100%N r) = b) /\
+  (forall ty, exists x, In x gen_type_matrix /\ c_type (snd (fst x)) = ty).
+Proof. exact type_matrix_full. Qed.
+Print Assumptions C08_type_matrix_matches_model.
 
 (** *** Non-vacuity *)
 Definition ex_str (n : N) (fs : list frag) : instr := IDef n (Cont TString (SStr fs)).
